@@ -184,5 +184,63 @@ theorem dictSet_fresh (bid : Nat) (q : QItem) : ∀ (l : List (Nat × QItem)),
     simp only [dictSet, hi, if_false, List.cons_append]
     rw [ih (fun e he => h e (List.mem_cons_of_mem _ he))]
 
+theorem pairwise_unique : ∀ (l : List (Nat × QItem)), l.Pairwise (fun a b => a.1 < b.1) →
+    ∀ x ∈ l, ∀ y ∈ l, x.1 = y.1 → x = y := by
+  intro l
+  induction l with
+  | nil => intro _ x hx; cases hx
+  | cons a l ih =>
+    intro hp x hx y hy hxy
+    rw [List.pairwise_cons] at hp
+    rcases List.mem_cons.mp hx with hxa | hxl
+    · rcases List.mem_cons.mp hy with hya | hyl
+      · rw [hxa, hya]
+      · have := hp.1 y hyl; rw [hxa] at hxy; omega
+    · rcases List.mem_cons.mp hy with hya | hyl
+      · have := hp.1 x hxl; rw [hya] at hxy; omega
+      · exact ih hp.2 x hxl y hyl hxy
+
+/-- Popping a queued id returns exactly the data stored under that id, once. -/
+theorem popData_exact (s : Rx) (hs : IdsOK s) (bid : Nat) (q : QItem) (hm : (bid, q) ∈ s.queue) :
+    ∃ s', popData s bid = some (q.data, s') ∧ popData s' bid = none ∧
+      queueIds s' = (queueIds s).filter (· != bid) ∧
+      ∀ e ∈ s.queue, e.1 ≠ bid → e ∈ s'.queue := by
+  have h2 := hs.2
+  have hfind : ∃ e, s.queue.find? (fun q => q.1 == bid) = some e := by
+    cases hf : s.queue.find? (fun q => q.1 == bid) with
+    | some e => exact ⟨e, rfl⟩
+    | none =>
+      have := List.find?_eq_none.mp hf (bid, q) hm
+      simp at this
+  obtain ⟨e, he⟩ := hfind
+  have hemem := List.mem_of_find?_eq_some he
+  have heid : e.1 = bid := by simpa using List.find?_some he
+  have : e = (bid, q) := pairwise_unique s.queue h2 e hemem (bid, q) hm heid
+  subst this
+  refine ⟨{ s with queue := s.queue.filter (fun q => q.1 != bid) }, ?_, ?_, ?_, ?_⟩
+  · simp only [popData, he]
+  · simp only [popData]
+    have : (s.queue.filter (fun q => q.1 != bid)).find? (fun q => q.1 == bid) = none := by
+      rw [List.find?_eq_none]
+      intro x hx
+      have := (List.mem_filter.mp hx).2
+      simp at this ⊢; exact this
+    rw [this]
+  · simp only [queueIds, List.filter_map]
+    congr 1
+  · intro x hx hne
+    exact List.mem_filter.mpr ⟨hx, by simpa using hne⟩
+
+/-- a pop of an id that is not queued raises and changes nothing -/
+theorem popData_absent (s : Rx) (bid : Nat) (h : bid ∉ queueIds s) : popData s bid = none := by
+  unfold popData
+  have : s.queue.find? (fun q => q.1 == bid) = none := by
+    rw [List.find?_eq_none]
+    intro x hx hxb
+    apply h
+    simp only [queueIds, List.mem_map]
+    exact ⟨x, hx, by simpa using hxb⟩
+  rw [this]
+
 end Udpcl
 end DtnVerif
